@@ -109,10 +109,19 @@ def specs(covs, spec):
     return main, 'A + ' + main
 
 
+def positions(df, labels):
+    """positions, in the caller's frame, of the rows the estimator retained (the `index` column that
+    check_input_data's reset_index() leaves behind holds the caller's labels, whatever the index looks like)"""
+    pos = df.index.get_indexer(pd.Index(list(labels)))
+    if (pos < 0).any() or len(set(pos.tolist())) != len(pos):
+        raise ValueError('retained rows carry labels that are not (distinct) labels of the input frame')
+    return pos
+
+
 def full(n, pos, arr):
-    """array aligned with the input row labels (labels are positions unless the caller deleted rows first)"""
+    """array aligned with the rows of the input frame (NaN where the estimator did not retain the row)"""
     pos = np.asarray(pos, dtype=int)
-    out = np.full(max(n, int(pos.max()) + 1 if len(pos) else n), np.nan)
+    out = np.full(n, np.nan)
     out[np.asarray(pos, dtype=int)] = np.asarray(arr, dtype=float)
     return out
 
@@ -143,7 +152,7 @@ def est_iptw(df, covs, wcol, o):
     else:
         est = {'ratio': np.exp(ipt.average_treatment_effect.loc['A', 'ATE']),
                'm0': np.exp(ipt.average_treatment_effect.loc['Intercept', 'ATE'])}
-    n, pos = len(df), ipt.df['index'].values
+    n, pos = len(df), positions(df, ipt.df['index'])
     d = np.asarray(ipt.df['__denom__'], dtype=float)
     nu = {'d': full(n, pos, d),
           'n': full(n, pos, np.broadcast_to(np.asarray(ipt.df['__numer__'], dtype=float), d.shape)),
@@ -163,7 +172,7 @@ def est_stoch(df, covs, wcol, o):
     else:
         s.fit(p=o['p'], conditional=["df['L1']==0", "df['L1']>0"])
         pr = np.where(s.df['L1'].values == 0, o['p'][0], o['p'][1])
-    n, pos = len(df), s.df['index'].values
+    n, pos = len(df), positions(df, s.df['index'])
     pd_ = np.asarray(s._pdenom_, dtype=float)
     a = s.df['A'].values
     omega = np.where(a == 1, pr, 1 - pr) / np.where(a == 1, pd_, 1 - pd_)
@@ -178,7 +187,7 @@ def est_gformula(df, covs, wcol, o):
                           weights=wcol)
     g.outcome_model(om, print_results=False)
     g.fit(o['treatment'], predict_missing=o['pm'])
-    n, pos = len(df), g.gf['index'].values
+    n, pos = len(df), positions(df, g.gf['index'])
     # predictions under the plan for every retained row (predict_missing=False blanks some in predicted_df)
     gp = g.gf.copy()
     gp['A'] = 1 if o['treatment'] == 'all' else 0 if o['treatment'] == 'none' else \
@@ -200,7 +209,7 @@ def est_aiptw(df, covs, wcol, o):
     a.outcome_model(om, continuous_distribution='poisson' if yt == 'poisson' else 'gaussian', print_results=False)
     a.fit()
     est = {'RD': a.risk_difference, 'RR': a.risk_ratio} if yt == 'binary' else {'ATE': a.average_treatment_effect}
-    n, pos = len(df), a.df['index'].values
+    n, pos = len(df), positions(df, a.df['index'])
     g1, g0 = np.asarray(a.df['_g1_'], dtype=float), np.asarray(a.df['_g0_'], dtype=float)
     nu = {'q1': full(n, pos, a.df['_pY1_']), 'q0': full(n, pos, a.df['_pY0_']), 'g1': full(n, pos, g1),
           'g0': full(n, pos, g0)}
@@ -220,7 +229,7 @@ def est_snm(df, covs, wcol, o):
     if o['miss'] == 'mm':
         s.missing_model(om, stabilized=o['stab'], print_results=False)
     s.fit(solver='closed')
-    n, pos = len(df), s.df['index'].values
+    n, pos = len(df), positions(df, s.df['index'])
     ipmw = np.ones(len(s.df)) if s.ipmw is None else np.asarray(s.ipmw, dtype=float)
     # reference treatment fit with the documented arguments: observed-outcome rows, freq_weights = ipmw x user weight
     d = s.df.copy()
